@@ -828,6 +828,76 @@ Proof.
   destruct (Rel_prev _ _ HR) as [_ P]. congruence.
 Qed.
 
+(* the call made by one update of the start-up sequence, in every state *)
+Lemma await_step_calls s u : in_i64 (u_off u) ->
+  p_epoch s = u_epoch u -> p_mode s = 1 -> p_t0 s <= u_now u ->
+  events (pll_do s u) =
+    if (step_wait_ns <? u_now u - p_t0 s) && fgt (u_weight u) c_3 && (step_min_ns <? Z.abs (u_off u))
+    then [EStep (inv (inv (u_off u)))] else [].
+Proof.
+  intros Hoff E M T.
+  rewrite pll_do_1 by (rewrite (sync_epoch_same s u E); exact M). rewrite (sync_epoch_same s u E).
+  unfold do_await_step, events.
+  pose proof (tsub_nonneg (u_now u) (p_t0 s) T) as Hm.
+  destruct (Z.ltb_spec (tsub (u_now u) (p_t0 s)) 0) as [C|_]; [lia|].
+  rewrite wait_sat, dur_abs_inv, min_abs_lt by exact Hoff.
+  destruct ((step_wait_ns <? u_now u - p_t0 s) && fgt (u_weight u) c_3); cbn [fst snd andb]; [|reflexivity].
+  destruct (step_min_ns <? Z.abs (u_off u)); reflexivity.
+Qed.
+
+Lemma await_pll_calls s u : p_epoch s = u_epoch u -> p_mode s = 2 -> p_t0 s <= u_now u ->
+  events (pll_do s u) = [].
+Proof.
+  intros E M T.
+  rewrite pll_do_2 by (rewrite (sync_epoch_same s u E); exact M). rewrite (sync_epoch_same s u E).
+  unfold do_await_pll, events.
+  pose proof (tsub_nonneg (u_now u) (p_t0 s) T) as Hm.
+  destruct (Z.ltb_spec (tsub (u_now u) (p_t0 s)) 0) as [C|_]; [lia|].
+  destruct (pll_wait_ns <? _); reflexivity.
+Qed.
+
+(* once tracking, an update at an unchanged reading makes no call and an update
+   at a later reading makes exactly one Adjust *)
+Lemma track_calls_step s ost u : Rel s ost -> o_prev ost <= u_now u -> upd_ok u ->
+  p_epoch s = u_epoch u -> p_mode s = 3 ->
+  (u_now u = p_t s -> events (pll_do s u) = []) /\
+  (p_t s < u_now u -> exists o d f, events (pll_do s u) = [EAdjust o d f]).
+Proof.
+  intros HR HP [Hoff Hw] E M.
+  destruct HR as [S [Mo [Ee [Et [[T0a T0b] [_ HNI]]]]]].
+  assert (Hnow : p_t s <= u_now u) by lia.
+  assert (Hm : 0 <= tsub (u_now u) (p_t0 s)) by (apply tsub_nonneg; lia).
+  assert (Hg : 0 <= tsub (u_now u) (p_t s)) by (apply tsub_nonneg; lia).
+  rewrite pll_do_3 by (rewrite (sync_epoch_same s u E); exact M). rewrite (sync_epoch_same s u E).
+  destruct (track_numeric s u (inv (u_off u)) HNI Hw (inv_in_i64 _ Hoff) Hm Hg)
+    as [s' [evs [q [ED [_ [_ [_ [_ [_ HE]]]]]]]]].
+  rewrite ED. unfold events. cbn [fst snd].
+  destruct HE as [[-> G0]|[oo [dd [ff [-> [Ff HN]]]]]].
+  - split; [reflexivity|]. intros L. exfalso.
+    assert (0 < tsub (u_now u) (p_t s)); [|lia].
+    unfold tsub, sat64, min_i64, max_i64.
+    destruct (Z.ltb_spec (u_now u - p_t s) (-9223372036854775808)); [lia|].
+    destruct (Z.ltb_spec 9223372036854775807 (u_now u - p_t s)); lia.
+  - split; [|intros _; eauto].
+    intros En. exfalso.
+    assert (Gp : tsub (u_now u) (p_t s) < max_gap_ns).
+    { rewrite En. unfold tsub. rewrite Z.sub_diag. cbn. unfold max_gap_ns, sec_ns. lia. }
+    destruct (HN Gp) as [N1 [N2 _]]. rewrite En in N2. unfold tsub in N2. rewrite Z.sub_diag in N2.
+    cbn in N2. unfold sec_ns in *. lia.
+Qed.
+
+Lemma history_track_calls us u : nondecreasing (us ++ [u]) -> Forall upd_ok (us ++ [u]) ->
+  let s := pll_final pll_init us in
+  p_epoch s = u_epoch u -> p_mode s = 3 ->
+  (u_now u = p_t s -> events (pll_do s u) = []) /\
+  (p_t s < u_now u -> exists o d f, events (pll_do s u) = [EAdjust o d f]).
+Proof.
+  intros HM HU s E M. destruct (history_state us u HM HU) as [o [HR [HP Hu]]].
+  destruct HR as [[_ [M0 _]]|HR]; [fold s in M0; lia|].
+  apply (track_calls_step s o u HR); try assumption.
+  apply HP. destruct HR as [S _]. exact S.
+Qed.
+
 (* float-level slew bound: whatever p is, the clamped value lies within
    +-(d * 500e-6) for d = ceil(dt) up to 2^34 s *)
 Lemma clamp_float_bound d p n : fin d = true -> R d = IZR n -> 0 <= n <= 2^34 -> fin p = true ->
